@@ -385,7 +385,10 @@ class PinBelongsToFile(Stream):
     def generate(self, rng):
         return {"fragment": rng.choice([True, True, "md5", False]), "pre": rng.choice(["nothing", "same", "other-build", "other-build"]),
                 "dep_served": rng.choice(["dep-a", "dep-b>=1"]), "dep_other": rng.choice(["dep-x", "dep-y<2"]),
-                "redirected": rng.random() < 0.35}
+                "redirected": rng.random() < 0.35,
+                # where the server keeps its files and how it labels its (UTF-8) pages
+                "files_dir": rng.choice(["files", "files", "packages/ab/cd", "caf\u00e9-\u65e5\u672c", "pkgs \u00fc"]),
+                "content_type": rng.choice([None, "text/html", "text/html; charset=utf-8", "application/vnd.pypi.simple.v1+html"])}
 
     def impl(self, case):
         import hashlib
@@ -402,7 +405,8 @@ class PinBelongsToFile(Stream):
         served = B.wheel_bytes("foo", "1.0", requires=[case["dep_served"]])
         other = B.wheel_bytes("foo", "1.0", requires=[case["dep_other"]], body="# another build\n")
         idx = B.FakeIndex("http://idx.example/simple", {"foo": {fn: served}}, with_hash=case["fragment"],
-                          served_at="http://mirror.example/root/pypi/simple" if case.get("redirected") else None)
+                          served_at="http://mirror.example/root/pypi/simple" if case.get("redirected") else None,
+                          files_dir=case.get("files_dir", "files"), content_type=case.get("content_type"))
         if case["pre"] != "nothing":
             with open(os.path.join(wheeldir, fn), "wb") as f:
                 f.write(served if case["pre"] == "same" else other)
@@ -416,6 +420,7 @@ class PinBelongsToFile(Stream):
             out["hash"] = dist.hash
             link = dist.candidate.link if getattr(dist, "candidate", None) is not None else None
             out["link"] = list(link) if link else None
+            out["href_on_page"] = idx.hrefs.get(fn)
             with open(os.path.join(wheeldir, fn), "rb") as f:
                 out["file_in_dir_sha256"] = hashlib.sha256(f.read()).hexdigest()
         except Exception as ex:
@@ -425,6 +430,8 @@ class PinBelongsToFile(Stream):
 
     def flags(self, case, r):
         return ["fragment:%s" % case["fragment"], "pre:" + case["pre"]] + (["error"] if "error" in r else []) + \
+            (["non-ascii-file-location"] if not case.get("files_dir", "files").isascii() else []) + \
+            (["page-without-charset-header"] if case.get("content_type") == "text/html" else []) + \
             (["project-page-redirected"] if case.get("redirected") else [])
 
     def oracle(self, case, r):
@@ -438,6 +445,8 @@ class PinBelongsToFile(Stream):
         page = ("http://mirror.example/root/pypi/simple" if case.get("redirected") else "http://idx.example/simple") + "/foo/"
         if r["link"] and r["link"][0] != page:
             fails.append(("C14/link-is-not-relative-to-the-page-it-came-from", {"link": r["link"], "page": page}))
+        if r["link"] and r.get("href_on_page") is not None and r["link"][1] != r["href_on_page"]:
+            fails.append(("C14/link-is-not-the-href-on-the-page", {"link": r["link"], "href": r["href_on_page"]}))
         if r["hash"]:
             algo, _, hexd = r["hash"].partition(":")
             ok = (algo == "sha256" and hexd == r["served_sha256"]) or (algo == "md5" and hexd == r["served_md5"])
